@@ -181,6 +181,8 @@ type Runner struct {
 	Execs   []Exec
 	Cluster bool
 	Scans   []chsql.ScanEvent
+	// Pace: pause of the consumer after every message it takes from the result channel (0 = none)
+	Pace time.Duration
 }
 
 var runnerSeq int64
@@ -330,6 +332,11 @@ func (r *Runner) run(db *chsql.DB, queryText string, req *Request, timeout time.
 					continue
 				}
 				out.Entries = append(out.Entries, e)
+			}
+			if r.Pace > 0 {
+				// a consumer that takes its time with every message (a response being written to a slow client):
+				// the stages upstream block on their sends and hold what they were about to hand on
+				time.Sleep(r.Pace)
 			}
 		}
 	}()
